@@ -1847,4 +1847,208 @@ theorem handle_view_nocap (hW : WriterRdataFaithful) {z : Zone.Zone} {sz : SZone
   rw [hlog, hl] at hn ⊢
   exact GoodLog.append.mpr ⟨goodLog_of_inv hW hi (NoCapErr.append.mp hn).1, goodLog_tail _ _⟩
 
+
+
+/-! ### C04: truncation, and which calls may be dropped -/
+
+/-- the view after the epilogue, in terms of the view of the answering logic's own log -/
+theorem view_tail (l : List Ev) (tr : Transport) (r : Out PErr Unit) :
+    view (l ++ tailEvs tr r) =
+      match r with
+      | .ok _ => view l
+      | .panic => view l
+      | .err .servFail => { rcode := SERVFAIL, aa := false, tc := (view l).tc }
+      | .err .truncation =>
+        if tr = .tcp then { rcode := SERVFAIL, aa := false, tc := (view l).tc }
+        else { rcode := (view l).rcode, aa := (view l).aa, tc := true } := by
+  cases r with
+  | ok u => simp [tailEvs]
+  | panic => simp [tailEvs]
+  | err e =>
+    cases e with
+    | servFail => simp [tailEvs, view, List.foldl_append, View.step]
+    | truncation =>
+      by_cases h : tr = Transport.tcp
+      · simp [tailEvs, h, view, List.foldl_append, View.step]
+      · simp [tailEvs, h, view, List.foldl_append, View.step]
+
+/-- a lighter judgement than `Does`: `m` only appends events satisfying `P`, and yields only values
+    satisfying `post` — for every writer behaviour, good or not -/
+def Logs {α} (m : PM α) (P : Ev → Prop) (post : α → Prop) : Prop :=
+  ∀ ps : PS, ∃ evs, (m ps).2.log = ps.log ++ evs ∧ (∀ e ∈ evs, P e) ∧ ∀ a, (m ps).1 = .ok a → post a
+
+theorem Logs.pure {α} (a : α) (P : Ev → Prop) : Logs (Pure.pure a : PM α) P (fun x => x = a) := by
+  intro ps
+  exact ⟨[], by simp [pure_def], by simp, fun x hx => by simp [pure_def] at hx; exact hx.symm⟩
+
+theorem Logs.fail {α} (e : PErr) (P : Ev → Prop) (post : α → Prop) : Logs (PM.fail e : PM α) P post := by
+  intro ps
+  exact ⟨[], by simp [PM.fail], by simp, fun x hx => by simp [PM.fail] at hx⟩
+
+theorem Logs.panic {α} (P : Ev → Prop) (post : α → Prop) : Logs (PM.panic : PM α) P post := by
+  intro ps
+  exact ⟨[], by simp [PM.panic], by simp, fun x hx => by simp [PM.panic] at hx⟩
+
+theorem Logs.weaken {α} {m : PM α} {P Q : Ev → Prop} {p q : α → Prop} (h : Logs m P p)
+    (hPQ : ∀ e, P e → Q e) (hpq : ∀ a, p a → q a) : Logs m Q q := by
+  intro ps
+  obtain ⟨evs, h1, h2, h3⟩ := h ps
+  exact ⟨evs, h1, fun e he => hPQ e (h2 e he), fun a ha => hpq a (h3 a ha)⟩
+
+theorem Logs.bind {α β} {m : PM α} {f : α → PM β} {P : Ev → Prop} {p1 : α → Prop} {p2 : β → Prop}
+    (h1 : Logs m P p1) (h2 : ∀ a, p1 a → Logs (f a) P p2) : Logs (m >>= f) P p2 := by
+  intro ps
+  obtain ⟨evs1, hl1, hP1, hp1⟩ := h1 ps
+  rw [bind_def]
+  rcases hm : m ps with ⟨(a | e | _), ps1⟩
+  · rw [hm] at hl1 hp1
+    obtain ⟨evs2, hl2, hP2, hp2⟩ := h2 a (hp1 a rfl) ps1
+    refine ⟨evs1 ++ evs2, ?_, ?_, hp2⟩
+    · simp only [] at hl1 ⊢; rw [hl2, hl1, List.append_assoc]
+    · intro e he
+      rcases List.mem_append.mp he with h | h
+      · exact hP1 e h
+      · exact hP2 e h
+  · rw [hm] at hl1
+    exact ⟨evs1, hl1, hP1, by intro x hx; simp at hx⟩
+  · rw [hm] at hl1
+    exact ⟨evs1, hl1, hP1, by intro x hx; simp at hx⟩
+
+theorem Logs.addCall (ev : AddEv) (m : M HV) (P : Ev → Prop) (hP : ∀ r, P (.add { ev with res := r })) :
+    Logs (PM.addCall ev m) P (fun _ => True) := by
+  intro ps
+  unfold PM.addCall
+  rcases h : m ps.w with ⟨(hv | e | _), w'⟩
+  · exact ⟨[.add { ev with res := .ok () }], by simp, by simpa using hP _, by simp⟩
+  · refine ⟨[.add { ev with res := .err e }], ?_, by simpa using hP _, by simp⟩
+    simp only []; split <;> rfl
+  · exact ⟨[.add { ev with res := .panic }], by simp, by simpa using hP _, by simp⟩
+
+/-- what is recorded of a call made by `add_additional_addresses` for `owner` -/
+def AddrEv (owner : WName) (opt : Bool) (e : Ev) : Prop :=
+  ∀ a, e = .add a → a.sec = .additional ∧ a.optional = opt ∧ a.owner = owner
+
+theorem Logs.addRrs (opt : Bool) (sec : RrSection) (hint : Hint) (owner : WName) (ty cls ttl : Nat)
+    (rds : List (List UInt8)) (P : Ev → Prop) (hP : ∀ r, P (.add ⟨sec, owner, ty, cls, ttl, rds, opt, r⟩)) :
+    Logs (PM.addRrs opt sec hint owner ty cls ttl rds) P (fun _ => True) :=
+  Logs.addCall _ _ P hP
+
+theorem Logs.aaaaPart (z : Zone.Zone) (hint : Hint) (owner : WName) (opt : Bool) (aaaa : Option Rrset) :
+    Logs (Server.addAaaa z hint owner opt aaaa) (AddrEv owner opt) (fun _ => True) := by
+  unfold Server.addAaaa
+  split
+  · cases aaaa with
+    | none => exact Logs.weaken (Logs.pure () _) (fun _ h => h) (fun _ _ => True.intro)
+    | some r =>
+      refine Logs.bind (Logs.addRrs opt .additional hint owner _ _ _ _ _ ?_)
+        (fun _ _ => Logs.weaken (Logs.pure () _) (fun _ h => h) (fun _ _ => True.intro))
+      intro r a ha; cases ha; exact ⟨rfl, rfl, rfl⟩
+  · exact Logs.weaken (Logs.pure () _) (fun _ h => h) (fun _ _ => True.intro)
+
+theorem Logs.addrs (z : Zone.Zone) (hint : Hint) (owner : WName) (sbc opt : Bool) :
+    Logs (addAdditionalAddresses z hint owner sbc opt) (AddrEv owner opt) (fun _ => True) := by
+  unfold addAdditionalAddresses
+  have hpure : Logs (Pure.pure () : PM Unit) (AddrEv owner opt) (fun _ => True) :=
+    Logs.weaken (Logs.pure () _) (fun _ h => h) (fun _ _ => True.intro)
+  split
+  · next a aaaa sos _ =>
+    cases a with
+    | none => exact Logs.aaaaPart z hint owner opt aaaa
+    | some r =>
+      refine Logs.bind (Logs.addRrs opt .additional hint owner _ _ _ _ _ ?_) (fun o _ => ?_)
+      · intro r a ha; cases ha; exact ⟨rfl, rfl, rfl⟩
+      · cases o with
+        | none => exact hpure
+        | some x => exact Logs.aaaaPart z _ owner opt aaaa
+  · exact hpure
+  · exact hpure
+  · exact Logs.panic _ _
+
+theorem Logs.readName (rd : List UInt8) (start : Nat) (P : Ev → Prop) :
+    Logs (readNameFromRdata rd start) P (fun _ => True) := by
+  unfold readNameFromRdata
+  split
+  · exact Logs.fail _ _ _
+  · split
+    · exact Logs.weaken (Logs.pure _ _) (fun _ h => h) (fun _ _ => True.intro)
+    · exact Logs.fail _ _ _
+
+theorem Logs.glueLoop (z : Zone.Zone) (hv : HV) (opt : Bool) (l : List (Nat × WName)) :
+    Logs (Server.glueLoop z hv opt l)
+      (fun e => ∀ a, e = .add a → a.sec = .additional ∧ a.optional = opt ∧ a.owner ∈ l.map (·.2)) (fun _ => True) := by
+  induction l with
+  | nil =>
+    unfold Server.glueLoop
+    exact Logs.weaken (Logs.pure () _) (fun _ h => h) (fun _ _ => True.intro)
+  | cons p rest ih =>
+    unfold Server.glueLoop
+    refine Logs.bind (Logs.weaken (Logs.addrs z _ p.2 true opt) ?_ (fun _ h => h))
+      (fun _ _ => Logs.weaken ih ?_ (fun _ h => h))
+    · intro e he a ha
+      obtain ⟨h1, h2, h3⟩ := he a ha
+      exact ⟨h1, h2, by simp [h3]⟩
+    · intro e he a ha
+      obtain ⟨h1, h2, h3⟩ := he a ha
+      exact ⟨h1, h2, by simp only [List.map_cons, List.mem_cons]; exact Or.inr h3⟩
+
+theorem Logs.classifyNs (child : WName) (rds : List (List UInt8)) (idx : Nat) (P : Ev → Prop) :
+    Logs (Server.classifyNs child rds idx) P
+      (fun p => (∀ x ∈ p.1, NameL.eqOrSubdomainOf (fold x.2) (fold child) = true) ∧
+                (∀ x ∈ p.2, NameL.eqOrSubdomainOf (fold x.2) (fold child) = false)) := by
+  induction rds generalizing idx with
+  | nil =>
+    unfold Server.classifyNs
+    exact Logs.weaken (Logs.pure ([], []) _) (fun _ h => h) (fun a ha => by subst ha; simp)
+  | cons rd rest ih =>
+    unfold Server.classifyNs
+    refine Logs.bind (Logs.readName rd 0 P) (fun n _ => Logs.bind (ih (idx + 1)) ?_)
+    rintro ⟨g, a⟩ ⟨hg, ha⟩
+    by_cases hb : NameL.eqOrSubdomainOf (fold n) (fold child) = true
+    · simp only [hb, if_true]
+      refine Logs.weaken (Logs.pure _ _) (fun _ h => h) (fun x hx => ?_)
+      subst hx
+      refine ⟨?_, ha⟩
+      intro x hx
+      simp only [List.mem_cons] at hx
+      rcases hx with h | h
+      · subst h; exact hb
+      · exact hg x h
+    · simp only [hb, if_false]
+      refine Logs.weaken (Logs.pure _ _) (fun _ h => h) (fun x hx => ?_)
+      subst hx
+      refine ⟨hg, ?_⟩
+      intro x hx
+      simp only [List.mem_cons] at hx
+      rcases hx with h | h
+      · subst h; simpa using hb
+      · exact ha x h
+
+/-- **mandatory glue is never wrapped in `execute_allowing_truncation`** (and only name servers
+    outside the delegated zone are): every call `do_referral` logs is either the NS RRset
+    (authority, mandatory), or an address RRset in the additional section that is optional exactly
+    when its owner is *not* at or below the delegation point -/
+theorem Logs.referral (z : Zone.Zone) (child : NameL.Name) (ns : Rrset) :
+    Logs (doReferral z child ns)
+      (fun e => ∀ a, e = .add a →
+        (a.sec = .authority ∧ a.optional = false) ∨
+        (a.sec = .additional ∧
+          (a.optional = !NameL.eqOrSubdomainOf (fold a.owner) (fold (unfold child))))) (fun _ => True) := by
+  unfold doReferral
+  refine Logs.bind (Logs.addRrs false .authority .none _ _ _ _ _ _ ?_) (fun hv _ =>
+    Logs.bind (Logs.classifyNs (unfold child) ns.rdatas 0 _) ?_)
+  · intro r a ha; cases ha; exact Or.inl ⟨rfl, rfl⟩
+  · rintro ⟨g, a⟩ ⟨hg, ha⟩
+    refine Logs.bind (Logs.weaken (Logs.glueLoop z _ false g) ?_ (fun _ h => h))
+      (fun _ _ => Logs.weaken (Logs.glueLoop z _ true a) ?_ (fun _ h => h))
+    · intro e he x hx
+      obtain ⟨h1, h2, h3⟩ := he x hx
+      obtain ⟨y, hy, hyx⟩ := List.mem_map.mp h3
+      refine Or.inr ⟨h1, ?_⟩
+      rw [h2, ← hyx, hg y hy]; rfl
+    · intro e he x hx
+      obtain ⟨h1, h2, h3⟩ := he x hx
+      obtain ⟨y, hy, hyx⟩ := List.mem_map.mp h3
+      refine Or.inr ⟨h1, ?_⟩
+      rw [h2, ← hyx, ha y hy]; rfl
+
 end QV.ServerAnswer
